@@ -98,7 +98,25 @@ func Load(opt LoadOptions) (*Prog, error) {
 	var canon *Canon
 	aliasByCurrent = map[string]string{}
 	if !opt.NoCanon {
-		cn, err := Canonicalize(pkgs)
+		reload := func(ov map[string][]byte) ([]*packages.Package, error) {
+			c2 := *cfg
+			c2.Overlay = ov
+			ps, err := packages.Load(&c2, "./...")
+			if err != nil {
+				return nil, err
+			}
+			var es []string
+			packages.Visit(ps, nil, func(p *packages.Package) {
+				for _, e := range p.Errors {
+					es = append(es, e.Error())
+				}
+			})
+			if len(es) > 0 {
+				return nil, fmt.Errorf("%s", strings.Join(es, "; "))
+			}
+			return ps, nil
+		}
+		cn, err := Canonicalize(pkgs, reload)
 		if err != nil {
 			return nil, err
 		}
